@@ -1412,6 +1412,10 @@ func (x *Exec) closureValue(st *State, fr *Frame, fl *ast.FuncLit) Term {
 		// a closure captures variables, not values: the snapshot taken here is only right if
 		// the variable is not assigned from this statement on (f = func(){ ... f(...) } would
 		// otherwise read as a call of the old f)
+		if x.sharedLoopVars[o] {
+			x.oblige(st, "model", "closure-captures-reassigned-variable", tFalse, fl,
+				"the closure captures the loop variable "+o.Name()+" of a file with pre-1.22 semantics (one variable for all iterations)")
+		}
 		if ov, ok := o.(*types.Var); ok {
 			for _, an := range x.assignNodes[ov] {
 				if an.End() > fl.Pos() {
